@@ -1,6 +1,7 @@
 import Driver.Common
 import Scion.Model.Drkey
 import Scion.Util.AesDrkey
+import Scion.Util.Sha256Drkey
 /-! Driver for the DRKey derivation model (engine `drkey`, property C39).
 The model's `prf` parameter is instantiated with the executable AES-128-CBC-MAC so that real key
 bytes are compared. Parsing and printing only. -/
@@ -8,6 +9,15 @@ namespace Driver.Drkey
 open Scion.Util Scion.Drkey
 
 def prfReal (key inp : Bytes) : Bytes := AesDrkey.cbcMac key inp
+
+/-- `pbkdf2.Key(buf, []byte("Derive DRKey Key"), 1000, 16, sha256.New)` -/
+def kdfReal (inp : Bytes) : Bytes :=
+  Sha256Drkey.pbkdf2 inp (Sha256Drkey.ascii "Derive DRKey Key") 1000 16
+
+def showSV : SVOut → String
+  | .divZero => "panic"
+  | .emptySecret => "err"
+  | .sv (b, e) k => s!"ok {b} {e} " ++ hexOf k
 
 /-- `<typ>:<rawhex>` or `x` (unparsable host string) -/
 def parseHost (w : String) : Option (Option Host) :=
@@ -83,6 +93,14 @@ def handle : List String → String
       | some (b, e) => s!"{b} {e}"
       | none => "panic"
     | _, _ => "bad-op"
+  | ["svd", secret, proto, b, e] => match unhex secret, proto.toNat?, b.toNat?, e.toNat? with
+    | some secret, some proto, some b, some e => match deriveSV kdfReal secret proto b e with
+      | some k => "ok " ++ hexOf k
+      | none => "err"
+    | _, _, _, _ => "bad-op"
+  | ["gsv", secret, proto, val, dur] => match unhex secret, proto.toNat?, val.toInt?, dur.toInt? with
+    | some secret, some proto, some val, some dur => showSV (getSecretValue kdfReal secret dur val proto)
+    | _, _, _, _ => "bad-op"
   | ["svin", secret, proto, b, e] => match unhex secret, proto.toNat?, b.toNat?, e.toNat? with
     | some secret, some proto, some b, some e => match svInput secret proto b e with
       | some inp => hexOf inp
